@@ -70,8 +70,12 @@ def main():
 
     log = EventLog()
     work = WorkCounter(cap=None)
-    clock = ClockFacade(log, work, epoch=float(pert.get("epoch", 1.7e9)), c_call=0.0, c_z3=0.0)
-    isla.solver.time = clock  # timeouts never fire: time stands still at a perturbed epoch
+    # no timeout is configured in these scenarios, so the passage of time must not matter:
+    # child 0 sees a clock that stands still at a perturbed epoch, the others a clock that
+    # advances with the work done (normal .. very slow machine) and stalls between calls
+    clock = ClockFacade(log, work, epoch=float(pert.get("epoch", 1.7e9)), c_call=float(pert.get("clock_rate", 0.0)), c_z3=0.0)
+    isla.solver.time = clock
+    stalls = pert.get("stalls") or {}
     z3seam = Z3Seam(log, None, faults=job.get("z3_faults") or [])
     z3seam.install()
     work.install()
@@ -108,6 +112,8 @@ def main():
             solver = ISLaSolver(grammar, sc["formula_text"], **kwargs)
         for i in range(job["k"]):
             work.extend(int(job.get("op_work", 2_000_000)))
+            if str(i) in stalls:
+                clock.advance(float(stalls[str(i)]))
             try:
                 tree = solver.solve()
             except StopIteration:
